@@ -138,7 +138,8 @@ def msg_mutations(data, struct, tier, enc):
         bm = [p for p in spos if where_of(struct, p) == 'bitmap']
         spos = [p for p in spos if p not in bm] + bm[:4]
     alph = sorted(set(symbol_bytes(s, enc)[0] for s in PAIR_ALPHABET_TXT) | set(PAIR_ALPHABET_RAW))
-    for m, _ in faults.pairs(data, spos, alph):
+    pair_alph = alph if not big else sorted(set(symbol_bytes(s, enc)[0] for s in '09- '))
+    for m, _ in faults.pairs(data, spos, pair_alph):
         yield m
     # numeral closure: every length numeral (element prefix, PDS sub-length) replaced by EVERY string over the
     # alphabet (up to 3 simultaneous byte changes inside one numeral)
